@@ -400,6 +400,9 @@ def run(run: Run) -> int:
     cases = [gen_case(run.rng, pools) for _ in range(n)]
     for i in range(0, n, 2500):
         run_cases(run, pt, orc, tl, cases[i:i + 2500])
+    # replay consistency: the first cases once more at the end of the run – a result must not depend on
+    # what was computed in between (stale or poisoned state)
+    run_cases(run, pt, orc, tl, FIXED + cases[:100])
     return run.finish(RULE, assumptions=[
         "floating-point rounding: compared at 1e-9 relative with an absolute floor of 1e-12 x the largest SLD of the case",
         "incoherent SLD is documented not to mix linearly: compared only model-vs-code and for linearity in the volume fraction",
